@@ -581,6 +581,18 @@ def f35():
     return not bad, f"NaN recorded: {bad}"
 
 
+@trigger("F36", ["C01", "C19"])
+def f36():
+    """an event-free run of 300 steps with alt orders, the base class, alpha_max = 2 and alpha_tau = one step stays at the equilibrium (known finding)"""
+    import json as _json
+    from pathlib import Path as _Path
+    sc = _json.loads((_Path(__file__).resolve().parent.parent / "findings" / "F36_scenario.json").read_text())
+    sim = run_loop(sc)
+    P = sim.production_realised.to_numpy(dtype=float)
+    dev = float(np.max(np.abs(P[299] - P[0])) / np.max(np.abs(P[0])))
+    return dev <= 1e-9, f"relative deviation of production from the initial equilibrium after 300 steps: {dev:.3g}"
+
+
 def run_all(props=None, only=None):
     res = {}
     for fid, t in TRIGGERS.items():
